@@ -20,6 +20,13 @@ root = env.repo_path() + os.sep
 warnings.simplefilter("ignore")
 
 
+def flush_stats():
+    tmp = out + ".stats.tmp"
+    with open(tmp, "w") as fh:
+        fh.write(json.dumps(stats))
+    os.replace(tmp, out + ".stats")
+
+
 def mech(e):
     tb = traceback.extract_tb(e.__traceback__)
     fr = [f for f in tb if f.filename.startswith(root)]
@@ -32,6 +39,8 @@ def one(data):
     flags = fdp.ConsumeIntInRange(0, 3)
     s = fdp.ConsumeUnicodeNoSurrogates(4096)
     stats["executions"] += 1
+    if stats["executions"] % 1000 == 0:
+        flush_stats()        # libFuzzer leaves through _exit(): no atexit handler would run
     try:
         if which == "encoder":
             sf.encoder(s, strict=bool(flags & 1), attribute=bool(flags & 2))
@@ -49,12 +58,7 @@ def one(data):
 
 
 def main():
-    import atexit
-
-    def fin():
-        with open(out, "a") as fh:
-            fh.write(json.dumps(stats) + "\n")
-    atexit.register(fin)
+    flush_stats()
     atheris.Setup(sys.argv, one)
     atheris.Fuzz()
 
